@@ -18,6 +18,7 @@ def run(model, rep, tier):
     tsrules.record_units(rep, tsrules.exploration(ctx))
     r3_report_condition(ctx, rep)
     r4_enumerator(ctx, rep)
+    r5_formatter_reports_what_it_was_given(ctx, rep)
     rep.units['cfg'] = ctx.cfg_stats
 
 
@@ -250,3 +251,71 @@ def r4_enumerator(ctx, rep, R='C19.R4'):
                                   and n.value.value is True for n in ast.walk(al.node))
     rep.check(okal, R, 'DummyThread.is_alive() is True', 'a thread unknown to threading is not '
               'considered alive', key='dummy:alive', func='threadsupport.DummyThread.is_alive')
+
+
+# ---------------------------------------------------------------------------------------------
+# R5 -- the formatter shows the list of threads it was given
+
+LOSSLESS = ('str', 'repr', 'list', 'tuple', 'sorted', 'reversed', 'iter', 'text_content', 'format', 'len')
+
+
+def r5_formatter_reports_what_it_was_given(ctx, rep, R='C19.R5'):
+    rep.rule(R, 'exactly the threads found are shown: in every formatter\'s test_threads(test, new_threads) '
+             'the value that reaches the output derives from the new_threads parameter only through '
+             'element-preserving operations (str / repr / list / sorted / %-formatting / iteration over '
+             'all elements); re-keying the threads in a dict / set (by name, by ident) or slicing drops '
+             'threads that share the key, and a filter drops threads altogether')
+    m = ctx.model
+    n = 0
+    for c in ctx.cg.formatter_classes():
+        fi = c.methods.get('test_threads')
+        if fi is None:
+            continue
+        ps = [a.arg for a in fi.node.args.args]
+        if len(ps) < 3:
+            continue
+        P = ps[2]
+        n += 1
+        bad = []
+        for x in ast.walk(fi.node):
+            if not (isinstance(x, ast.Name) and x.id == P and isinstance(x.ctx, ast.Load)):
+                continue
+            cur = x
+            while True:
+                par = getattr(cur, '_parent', None)
+                if par is None or isinstance(par, ast.stmt):
+                    break
+                if isinstance(par, ast.Call) and (cur in par.args or any(k.value is cur for k in par.keywords)):
+                    d = (dotted(par.func) or '').split('.')[-1]
+                    if d in ('dict', 'set', 'frozenset', 'zip', 'filter', 'map', 'islice', 'groupby') or \
+                            (d and d[0] == '_' and d not in LOSSLESS) or \
+                            (d and d[0].isupper() and d.lower().endswith(('dict', 'set', 'map'))):
+                        bad.append(par)
+                        break
+                    if isinstance(par.func, ast.Attribute) and par.func.attr in ('join',):
+                        pass
+                elif isinstance(par, (ast.DictComp, ast.SetComp)):
+                    bad.append(par)
+                    break
+                elif isinstance(par, ast.comprehension):
+                    comp = par._parent
+                    if par.ifs or isinstance(comp, (ast.DictComp, ast.SetComp)):
+                        bad.append(comp)
+                        break
+                    g_par = getattr(comp, '_parent', None)
+                    if isinstance(comp, ast.GeneratorExp) and isinstance(g_par, ast.Call) and \
+                            (dotted(g_par.func) or '').split('.')[-1] not in LOSSLESS + ('join', 'print', 'any'):
+                        bad.append(g_par)
+                        break
+                    cur = comp
+                    continue
+                elif isinstance(par, ast.Subscript) and par.value is cur and isinstance(par.slice, ast.Slice):
+                    bad.append(par)
+                    break
+                cur = par
+        rep.check(not bad, R, '%s.test_threads shows new_threads as given' % c.name,
+                  '%s.test_threads passes the list of leaked threads through %s before showing it: '
+                  'threads that share a key (e.g. pool workers with one name) or fall outside the slice '
+                  '/ filter are not reported' % (c.name, '; '.join(norm(b)[:70] for b in bad[:2])),
+                  key='threads:shown:' + c.name, func=fi.qualname, where=ctx.where(fi, bad[0] if bad else fi.node))
+    rep.floor(R, n, 2, 'formatter implementations of test_threads')
